@@ -25,8 +25,14 @@ CONFIGS = {
     "SS.N3.set.less.NTR": (4, "SS", 3, "set", "less", "NTR"),
     "SS.N3.flat.less": (5, "SS", 3, "flat", "less", "int"),
     "SS.N2.flat.greater": (5, "SS", 2, "flat", "greater", "int"),
+    "FS.sv3.less.NTR": (6, "FS", 0, "sv3", "less", "NTR"),
+    "FS.fcv16.less.NTR": (6, "FS", 0, "fcv16", "less", "NTR"),
+    "FS.std.less.NTR": (6, "FS", 0, "std", "less", "NTR"),
+    "SS.N3.flat.less.NTR": (7, "SS", 3, "flat", "less", "NTR"),
+    "SS.N2.set.less.TR": (7, "SS", 2, "set", "less", "TR"),
+    "SS.N3.flat.less.TR": (7, "SS", 3, "flat", "less", "TR"),
 }
-GROUPS = 6
+GROUPS = 8
 K = 3
 MOD = 5  # the driver constructs the stateful comparator as ModLess{5}
 
@@ -395,6 +401,52 @@ def random_script(cfg, seed, histories, length, **kw):
     for h in range(histories):
         out.append("H r%d" % h)
         out.extend(random_history(rng, cfg, length, **kw))
+    return out
+
+
+def throw_grid(cfg, kmax=7, thorough=False):
+    """C09 for the sets, systematically: every operation that constructs, copies or moves elements or allocates, from a few
+    (target, source) contents on both sides of N, with the k-th throwing event (element construction / copy / allocator call) made
+    to throw for every k < kmax, followed by uses of every set involved (lookups of every key, walk, insert, merge, erase)."""
+    n = cfg.N if not cfg.flat else 3
+    small = [1, 5, 9][:max(1, min(3, n))]
+    big = [2 * i + 2 for i in range(max(n + 2, 6))]
+    if cfg.cap is not None:
+        big = big[:max(2, cfg.cap - 3)]
+    targets = [[], small, big]
+    sources = [[0, 8, 10][:max(1, min(3, n))], [3, 5, 7, 20, 21, 22, 23, 24][:len(big)] if cfg.cap is not None else [3, 5, 7, 20, 21, 22, 23, 24]]
+    sources.append(([5, 1, 12] + [13, 14, 15, 16])[:max(2, min(n, 7))])   # shares elements with the small target, other order
+    if thorough:
+        targets.append([11, 3, 7] if not cfg.flat else [4, 40, 41, 42, 43])
+        sources.append(list(range(30, 30 + n + 1)))
+    out = []
+    hid = 0
+    for ti, t in enumerate(targets):
+        for si, src in enumerate(sources):
+            ops = ["copy_assign 0 1", "move_assign 0 1", "merge 0 1", "merge 1 0", "swap 0 1", "ctor_copy 2 1", "ctor_move 2 1",
+                   "insert_range 0 %s" % _vs(src), "insert_il 0 %s" % _vs(src), "assign_il 0 %s" % _vs(src), "ctor_range 2 %s" % _vs(src),
+                   "ctor_il 2 %s" % _vs(src[:8]), "merge_other 0 %s" % _vs(src),
+                   "insert 0 %d" % src[0], "insert 0 %d" % (src[-1] + 50), "insert_rv 0 %d" % src[-1], "emplace 0 %d" % src[0],
+                   "insert_hint 0 0 %d" % src[0], "emplace_hint 0 %d %d" % (len(t), src[-1] + 50), "extract_key 0 %d" % (t[0] if t else 1),
+                   "erase_key 0 %d" % (t[0] if t else 1), "erase_pos 0 0" if t else "clear 0", "erase_range 0 0 %d" % min(2, len(t))]
+            if cfg.flat:
+                ops += ["assign_vector 0 %s" % _vs(src), "from_vector 2 %s" % _vs(src), "steal_vector 1"]
+            for op in ops:
+                for k in range(kmax):
+                    out.append("H tg%d.%d.%d.%d" % (ti, si, hid, k))
+                    out.append("ctor_range 0 %s" % _vs(t))
+                    out.append("ctor_range 1 %s" % _vs(src))
+                    out.append("!%d %s" % (k, op))
+                    # the sets are still sets, and usable
+                    for key in sorted(set(t + src))[:6]:
+                        out.append("find 0 %d" % key)
+                    out.append("walk 0")
+                    out.append("walk 1")
+                    out.append("insert 0 4")
+                    out.append("merge 1 0")
+                    out.append("erase_key 1 %d" % src[0])
+                    out.append("cmp 0 1")
+                hid += 1
     return out
 
 
